@@ -798,6 +798,10 @@ def guarded(ctx, guard, prog, depth=3, found=None):
             continue
         if e["kind"] == "err":
             continue
+        if e["kind"] == "delegate" and e.get("term") is not None and e["term"][0] == "call" and (prog.body(e["callee"]) if e.get("callee") else None) is None and cut._assumed_ok(e["term"]) is False:
+            # a std combinator as the tail expression (`load(..).map_err(..).and_then(|p| test(p))`) that cannot be Ok
+            # in the world where the guard fails
+            continue
         if e["kind"] == "delegate" and depth > 0:
             cb = prog.body(e["callee"]) if e.get("callee") else None
             if cb is not None and cb.key != ctx.body.key:
